@@ -207,8 +207,10 @@ def coq_build(timeout=3000):
     return p.returncode == 0, p.stdout
 
 
-FORBIDDEN = re.compile(r'\b(Admitted|admit|Axiom|Axioms|Parameter|Parameters|Conjecture|Hypothesis|'
-                       r'Unset\s+Guard|bypass_check|Admit\s+Obligations)\b|type-in-type|impredicative-set')
+FORBIDDEN = re.compile(r'\b(Admitted|admit|Axiom|Axioms|Parameter|Parameters|Conjecture|Conjectures|'
+                       r'Unset\s+Guard|Unset\s+Positivity|Unset\s+Universe|bypass_check|Admit\s+Obligations|'
+                       r'give_up)\b|type-in-type|impredicative-set')
+SECTION_ONLY = re.compile(r'^\s*(Hypothesis|Hypotheses|Variable|Variables|Context)\b')
 
 
 def strip_coq_comments(src):
@@ -242,6 +244,16 @@ def audit_sources():
                 src = strip_coq_comments(open(os.path.join(root, fn)).read())
                 for m in FORBIDDEN.finditer(src):
                     bad.append('%s: %s' % (fn, m.group(0)))
+                # Variable / Hypothesis are fine inside a Section only
+                stack = []
+                for sent in re.split(r'\.(?:\s|$)', src):
+                    sm = re.match(r'\s*(Section|Module\s+Type|Module)\s+(\w+)', sent)
+                    if sm and ':=' not in sent:
+                        stack.append(sm.group(1).split()[0])
+                    elif re.match(r'\s*End\s+\w+', sent) and stack:
+                        stack.pop()
+                    elif SECTION_ONLY.match(sent) and 'Section' not in stack:
+                        bad.append('%s: %s outside a section' % (fn, sent.strip()[:40]))
     return bad
 
 
